@@ -109,3 +109,54 @@ def _(number: Nat, flags: Union(Lit(0), Lit(32), Lit(64), Lit(96), Lit(128), Lit
     loop(0, invariant=[number >= 0, old(number) >= 31, list(encoded) + le128(number) == le128(old(number))],
          decreases=number)
     at_stmt("encoded.reverse()", use=[])
+
+
+@contract("Type.set_tag", props=["C03", "C01", "C04"], for_class="*")
+def _(self, number: Nat, flags: Union(Lit(0), Lit(32), Lit(64), Lit(96), Lit(128), Lit(160), Lit(192), Lit(224))):
+    # X.690 8.1.2: the identifier octets carry exactly the class and the primitive/constructed bit that was asked for
+    # -- for every type class of the BER and the DER codec (a UNIVERSAL class tag stays UNIVERSAL, F19)
+    no_invariant()
+    assigns(self)
+    ensures(list(self.tag) == tag_octets(number, flags) and self.tag_len == len(self.tag))
+
+
+@contract("PrimitiveOrConstructedType.set_tag", props=["C03", "C01", "C04"], for_class="*")
+def _(self, number: Nat, flags: Union(Lit(0), Lit(64), Lit(128), Lit(192))):
+    # string-like types: the primitive identifier and the same identifier with the constructed bit set
+    no_invariant()
+    assigns(self)
+    ensures(list(self.tag) == tag_octets(number, flags) and self.tag_len == len(self.tag))
+    ensures(list(self.constructed_tag) == tag_octets(number, flags + 32))
+
+
+@contract("MembersType.set_tag", props=["C03", "C01", "C04"], for_class="*")
+def _(self, number: Nat, flags: Union(Lit(0), Lit(32), Lit(64), Lit(96), Lit(128), Lit(160), Lit(192), Lit(224))):
+    # SEQUENCE / SET are always constructed
+    no_invariant()
+    assigns(self)
+    ensures(list(self.tag) == tag_octets(number, flags + (0 if (flags // 32) % 2 == 1 else 32)) and self.tag_len == len(self.tag))
+
+
+@contract("ArrayType.set_tag", props=["C03", "C01", "C04"], for_class="*")
+def _(self, number: Nat, flags: Union(Lit(0), Lit(32), Lit(64), Lit(96), Lit(128), Lit(160), Lit(192), Lit(224))):
+    no_invariant()
+    assigns(self)
+    ensures(list(self.tag) == tag_octets(number, flags + (0 if (flags // 32) % 2 == 1 else 32)) and self.tag_len == len(self.tag))
+
+
+@contract("ExplicitTag.set_tag", props=["C03", "C01", "C04"])
+def _(self, number: Nat, flags: Union(Lit(0), Lit(32), Lit(64), Lit(96), Lit(128), Lit(160), Lit(192), Lit(224))):
+    no_invariant()
+    assigns(self)
+    ensures(list(self.tag) == tag_octets(number, flags + (0 if (flags // 32) % 2 == 1 else 32)) and self.tag_len == len(self.tag))
+
+
+fields("Recursive", tag_number=Opt(Int), tag_flags=Opt(Int))
+
+
+@contract("Recursive.set_tag", props=["C03", "C01", "C04"])
+def _(self, number: Nat, flags: Union(Lit(0), Lit(32), Lit(64), Lit(96), Lit(128), Lit(160), Lit(192), Lit(224))):
+    # a recursive reference only records the tag; set_inner_type applies it to the copy of the resolved type
+    no_invariant()
+    assigns(self)
+    ensures(self.tag_number == number and self.tag_flags == flags)
